@@ -80,12 +80,13 @@ pub struct Acc {
     /// number of distinct specific signatures already emitted per (type, op)
     specific: HashMap<String, u32>,
     sigs: HashSet<String>,
+    sampled: HashSet<&'static str>,
     pub violations: u32,
 }
 
 impl Acc {
     pub fn new() -> Self {
-        Acc { counts: HashMap::new(), classes: HashSet::new(), evals: 0, specific: HashMap::new(), sigs: HashSet::new(), violations: 0 }
+        Acc { counts: HashMap::new(), classes: HashSet::new(), evals: 0, specific: HashMap::new(), sigs: HashSet::new(), sampled: HashSet::new(), violations: 0 }
     }
     #[inline]
     pub fn count(&mut self, k: &'static str, n: u64) {
@@ -163,6 +164,13 @@ impl Acc {
         ) && self.sigs.insert(sig)
         {
             self.violations += 1;
+        }
+    }
+    /// record one real evaluated case per kind
+    #[inline]
+    pub fn sample(&mut self, ctx: &mut Ctx, kind: &'static str, v: impl FnOnce() -> Value) {
+        if self.sampled.insert(kind) {
+            ctx.sample_by_kind(kind, v());
         }
     }
     pub fn give_up(&self) -> bool {
